@@ -127,6 +127,16 @@ def make_pool(tier, rng):
     ob = add(lambda n: [A.Declare(V(n), A.obj(("a", A.lst(I(0)))))], {"a": [0]})
     add(lambda n: [A.Declare(V(n), A.Index(A.lst(V(ob)), I(0)))], {"a": [0]}, ident=ob)
     add(lambda n: [A.Declare(V(n), A.obj(("a", V(ob))))], {"a": {"a": [0]}})
+    # an operand stored inside the other operand
+    w1 = add(lambda n: [A.Declare(V(n), A.lst(A.lst()))], [[]])
+    add(lambda n: [A.Declare(V(n), A.lst(V(w1)))], [[[]]])
+    add(lambda n: [A.Declare(V(n), A.obj(("a", V(w1))))], {"a": [[]]})
+    w2 = add(lambda n: [A.Declare(V(n), A.lst(I(1)))], [1])
+    add(lambda n: [A.Declare(V(n), A.lst(V(w2)))], [[1]])
+    add(lambda n: [A.Declare(V(n), A.lst(V(w2), V(w2)))], [[1], [1]])
+    w3 = add(lambda n: [A.Declare(V(n), A.obj(("a", A.obj())))], {"a": {}})
+    add(lambda n: [A.Declare(V(n), A.obj(("a", V(w3))))], {"a": {"a": {}}})
+    add(lambda n: [A.Declare(V(n), A.lst(V(w3), V(w1)))], [{"a": {}}, [[]]])
     # functions (only at top level of an operand, or one level down)
     f1 = add(lambda n: [A.Declare(V(n), A.FuncE([], False, [A.Return(I(1))]))], Fn)
     add(lambda n: [A.Declare(V(n), V(f1))], Fn, ident=f1)
@@ -288,7 +298,7 @@ def pair_work(arg):
         if o.code != 103 or not d.ok or o.out != b"probe\n":
             out["viol"].append(("error-shape", "comparison failure is not a clean diagnostic after the output so far: " + what, r.text))
             continue
-        named = any(("'%s'" % a in d.msg and "'%s'" % b in d.msg and d.msg.find("'%s'" % a) <= d.msg.rfind("'%s'" % b)) for a, b in k[1])
+        named = any(judge.atoms_present(d.msg, [a, b], False) for a, b in k[1])
         if not named:
             out["viol"].append(("error-types/" + op, "diagnostic %r does not name the two types of a mismatching pair %s: %s" % (d.msg, sorted(k[1]), what), r.text))
         tok = next((t for t in r.items if isinstance(t, P.Tok) and t.text == op and t.line == d.line), None)
